@@ -33,7 +33,8 @@ REQUIRED = {'generic.calls': 400, 'generic.keyword_order_calls': 100, 'generic.e
             'exact.unselected_operands': 300, 'counts.cases': 300, 'counts.lambda_applications': 1000,
             'reach.choose_overload': 2000, 'candidates.max_per_call': 4, 'static.lambda_params': 30,
             'form.and-or': 200, 'form.switch': 100, 'form.switchCase': 50, 'form.selectCase': 50, 'form.coalesce': 50,
-            'form.elvis': 50, 'form.map-literal': 30}
+            'form.elvis': 50, 'form.map-literal': 30,
+            'partial.cases': 1000, 'form.groupBy-aggregator': 100, 'form.generate': 100, 'form.splitWhere': 100}
 
 
 class Mon:
@@ -405,6 +406,85 @@ def counts(mon, rec, rng, count):
             rec.sample({'kind': 'counts', 'text': text, 'data': list(data), 'applications': got})
 
 
+# ---- (D) lazily produced results of grouping / generating / splitting functions, partly consumed --------
+
+def partial_cases(rng):
+    """yields (form, text, data, {probe id: (at least, at most)}): application-count bounds of each
+    lambda when only K results of a lazily produced result are consumed (one application of
+    read-ahead slack, as in C14)"""
+    n = rng.choice((0, 1, 2, 3, 5, 8, 12))
+    data = [rng.randrange(0, 12) for _ in range(n)]
+    K = rng.choice((0, 1, 1, 2, 3, 5))
+    sink = rng.choice(('.take(%d).toList()' % K, '.take(%d).len()' % K, '.limit(%d).select($).toList()' % K))
+    mod = rng.choice((2, 3, 5))
+    G = len({x % mod for x in data})
+    use = min(K, G)
+    yield ('groupBy-aggregator', '$data.groupBy(tick(1, $ mod %d), tick(2, $ * 2), tick(3, $.len()))%s' % (mod, sink), data,
+           {1: (n, n), 2: (n, n), 3: (use, min(use + 1, G))})
+    yield ('groupBy-aggregator-kw', '$data.groupBy(tick(1, $ mod %d), aggregator => tick(3, $.len()))%s' % (mod, sink), data,
+           {1: (n, n), 3: (use, min(use + 1, G))})
+    if G:
+        yield ('groupBy-aggregator-first', '$data.groupBy(tick(1, $ mod %d), tick(2, $), tick(3, $.sum())).first()' % mod, data,
+               {1: (n, n), 2: (n, n), 3: (1, min(2, G))})
+    yield ('groupBy-aggregator-unused', 'let(g => $data.groupBy(tick(1, $ mod %d), tick(2, $), tick(3, $.sum()))) -> 7' % mod, data,
+           {1: (n, n), 2: (n, n), 3: (0, 0)})
+    yield ('groupBy-aggregator-whole', '$data.groupBy(tick(1, $ mod %d), tick(2, $), tick(3, $.sum())).toList()' % mod, data,
+           {1: (n, n), 2: (n, n), 3: (G, G)})
+    # generate(initial, predicate, producer, selector): x, f(x), f(f(x)), ... while predicate
+    N = rng.choice((0, 1, 3, 6, 1000000))
+    avail = N
+    use = min(K, avail)
+    yield ('generate', 'generate(0, tick(1, $ < %d), tick(2, $ + 1), tick(3, $ * 2))%s' % (N, sink), data,
+           {1: (use, min(use + 1, avail + 1)), 2: (max(use - 1, 0), use + 1), 3: (use, use + 1)})
+    yield ('generateMany', 'generateMany(1, tick(1, [$ * 2, $ * 2 + 1]), tick(2, -$))%s' % sink, data,
+           {1: (max(K - 1, 0), K + 1), 2: (K, K + 1)})
+    # splitWhere / sliceWhere produce their chunks lazily from the source
+    thr = rng.choice((0, 3, 6, 100))
+    flags = [x >= thr for x in data]
+    def upto_chunks(k, flags=flags):
+        # predicate applications needed to complete k chunks of splitWhere (a chunk ends at a true)
+        done = 0
+        for i, f in enumerate(flags):
+            if done >= k:
+                return i
+            if f:
+                done += 1
+        return len(flags)
+    need = upto_chunks(K)
+    yield ('splitWhere', '$data.splitWhere(tick(1, $ >= %d))%s' % (thr, sink), data,
+           {1: (min(need, n), min(upto_chunks(K + 1) + 1, n))})
+    yield ('selectAllCases-partial', 'selectAllCases(%s)%s' % (', '.join('tick(%d, %s)' % (i + 1, 'true' if f else 'false')
+                                                                        for i, f in enumerate(flags)), sink), data,
+           {i + 1: (1 if sum(flags[:i]) < K else 0, 1 if sum(flags[:i]) < K + 1 else 0) for i in range(n)})
+
+
+def partial(mon, rec, rng, count):
+    for i in range(count):
+        for form, text, data, bounds in partial_cases(rng):
+            out, trace = mon.run(text, {'data': tuple(data)})
+            rec.count('partial.cases')
+            rec.count('form.' + form)
+            rec.case((text, tuple(data)), nontrivial=bool(bounds) and len(data) > 0)
+            if out[0] != 'value':
+                rec.count('partial.errors')
+                continue
+            got = {k: trace.count(k) for k in bounds}
+            over = {k: (got[k], hi) for k, (lo, hi) in bounds.items() if got[k] > hi}
+            under = {k: (got[k], lo) for k, (lo, hi) in bounds.items() if got[k] < lo}
+            rp = {'kind': 'partial', 'text': text, 'data': list(data)}
+            if over:
+                rec.violation('lazy-lambda-overapplied:%s' % form,
+                              '%s over %r: lambda applications %r, at most %r are required by what was consumed' % (
+                                  text, data, got, {k: hi for k, (lo, hi) in bounds.items()}), rp)
+            elif under:
+                rec.violation('lambda-underapplied:%s' % form,
+                              '%s over %r: lambda applications %r, at least %r are required' % (
+                                  text, data, got, {k: lo for k, (lo, hi) in bounds.items()}), rp)
+            rec.count('partial.lambda_applications', len(trace))
+        if i % 100 == 0:
+            rec.sample({'kind': 'partial', 'text': text, 'data': list(data), 'applications': got if out[0] == 'value' else None})
+
+
 def plan(tier, seed):
     thorough = tier == 'thorough'
     shards = [{'name': 'generic-%d' % p, 'kind': 'generic', 'part': p, 'parts': 4} for p in range(4)]
@@ -412,6 +492,8 @@ def plan(tier, seed):
         shards.append({'name': 'exact-%d' % p, 'kind': 'exact', 'count': 2500 if thorough else 200})
     for p in range(8 if thorough else 2):
         shards.append({'name': 'counts-%d' % p, 'kind': 'counts', 'count': 8000 if thorough else 400})
+    for p in range(4 if thorough else 1):
+        shards.append({'name': 'partial-%d' % p, 'kind': 'partial', 'count': 3000 if thorough else 300})
     return shards
 
 
@@ -423,6 +505,8 @@ def run_shard(spec, rec):
             generic(mon, rec, spec['part'], spec['parts'])
         elif spec['kind'] == 'exact':
             exact(mon, rec, rng, spec['count'])
+        elif spec['kind'] == 'partial':
+            partial(mon, rec, rng, spec['count'])
         else:
             counts(mon, rec, rng, spec['count'])
     finally:
@@ -436,6 +520,9 @@ def replay(data, rec):
             out, trace = mon.run(data['text'])
             print('%s -> %r, probes fired %r' % (data['text'], out, trace))
             print('(expected trace is regenerated only by re-running the check)')
+        elif data['kind'] == 'partial':
+            out, trace = mon.run(data['text'], {'data': tuple(data['data'])})
+            print('%r over %r -> %r, applications %r' % (data['text'], data['data'], out, {k: trace.count(k) for k in sorted(set(trace))}))
         elif data['kind'] == 'counts':
             out, trace = mon.run(data['text'].replace('$src', '$data', 1) + '.toList()', {'data': tuple(data['data'])})
             print('%r -> %r, applications %r' % (data['text'], out, {k: trace.count(k) for k in set(trace)}))
